@@ -12,7 +12,7 @@
 From Coq Require Import NArith ZArith List Bool.
 From LibaV Require Import C05.DListDefs C05.DListProofs C05.DListSpec C05.DListRunProofs C05.DListObsProofs.
 From LibaV Require Import C05.SListDefs C05.SListProofs C05.SListSpec C05.SListRunProofs.
-From LibaV Require Import C05.QueDefs C05.QueSpec C05.QueProofs C05.QueExamples.
+From LibaV Require Import C05.QueDefs C05.QueSpec C05.QueProofs C05.QueDropProofs C05.QueExamples.
 Import ListNotations.
 Local Open Scope N_scope.
 
@@ -149,6 +149,28 @@ Theorem que_invariant_facts :
   (forall s x, In x (q_pool (getq w s)) -> ~ In x (fst X ++ snd X)).
 Proof. exact inv_facts. Qed.
 Print Assumptions que_invariant_facts.
+
+(* a_que_drop / a_que_setz (as they are in /repo now: reservation before the first node is moved;
+   recycled nodes released instead of resized) are all-or-nothing under every fault schedule: either
+   the queue is emptied (and setz installs the new element size), or A_OMEMORY is returned, a request
+   was refused, and both abstract sequences are exactly as before.  (dq_step in que_step only
+   promises that a suffix remains; this is the sharper statement for the current code.) *)
+Theorem que_drop_all_or_nothing :
+  forall (w : qworld) (X : list id * list id) (s : bool), QInv w X ->
+  exists w' rc, q_drop w s = Ok (w', rc) /\ trace_ok w w' /\
+    ((rc = 0%Z /\ QInv w' (upd s [] X) /\ abs w' (upd s [] X) = upd s [] (abs w X)) \/
+     (rc = 4%Z /\ failed w' = true /\ QInv w' X /\ abs w' X = abs w X)).
+Proof. exact drop_all_or_nothing. Qed.
+Print Assumptions que_drop_all_or_nothing.
+
+Theorem que_setz_all_or_nothing :
+  forall (w : qworld) (X : list id * list id) (s : bool) (siz : N), QInv w X ->
+  exists w' rc, q_setz w s siz = Ok (w', rc) /\ trace_ok w w' /\
+    ((rc = 0%Z /\ QInv w' (upd s [] X) /\ abs w' (upd s [] X) = upd s [] (abs w X) /\
+      q_siz (getq w' s) = (if N.eqb siz 0 then 1 else siz)) \/
+     (rc = 4%Z /\ failed w' = true /\ QInv w' X /\ abs w' X = abs w X)).
+Proof. exact setz_all_or_nothing. Qed.
+Print Assumptions que_setz_all_or_nothing.
 
 Theorem que_initial : QInv q_world0 ([], []).
 Proof. exact world0_inv. Qed.
